@@ -47,15 +47,19 @@ func (r *Runner) RunHistory(histNo int, o HistOpts) error {
 		}
 	}
 	for b := 0; b < o.Batches; b++ {
-		if o.InsertOnly {
+		switch {
+		case o.InsertOnly && o.Graph:
+			r.GraphStepBatch(r.GenInsertBatch())
+		case o.InsertOnly:
 			r.InsertBatch()
-		} else {
+		case o.Graph:
+			if r.GraphStepBatch(r.GenBatch()) != "insert" {
+				insertOnly = false
+			}
+		default:
 			if r.RandomBatch() != "insert" {
 				insertOnly = false
 			}
-		}
-		if o.Graph {
-			r.GraphProj()
 		}
 		observe(b)
 		if o.Cold && !r.Cfg.Mem {
